@@ -542,6 +542,48 @@ def enum_take_perm(tier):
                 yield {"array": arange_spec([n], ch), "mode": "getitem", "index": [item], "bare": bool(i % 3)}
 
 
+def enum_wide(tier):
+    """Long axes: in-chunk offsets and chunk numbers beyond 255 (and, once, beyond 65535), where an index array narrowed
+    to a small unsigned dtype from the wrong bound would wrap around.  Irregular chunkings with a short first or last
+    chunk; points on both sides of every chunk boundary, at offsets 255/256/257 inside a long chunk, and at the ends."""
+    layouts = [(700, [[100, 600]]), (700, [[600, 100]]), (700, [[3, 297, 400]]), (700, [[700]]), (700, [[1] * 300 + [400]])]
+    if tier != "quick":
+        layouts += [(70000, [[10, 69990]]), (70000, [[69990, 10]]), (70000, [[200, 69800]])]
+    i = 0
+    for n, ch in layouts:
+        bounds = sorted({0, n - 1, *(b + o for b in itertools.accumulate(ch[0]) for o in (-1, 0, 1) if 0 <= b + o < n)})
+        first = ch[0][0]
+        probes = sorted({*bounds, *(first + o for o in (254, 255, 256, 257, 300, 511, 512) if first + o < n), *(o for o in (255, 256, 257) if o < n), n // 2})
+        if n > 65536:
+            probes = sorted({*probes, *(first + o for o in (65535, 65536, 65537) if first + o < n)})
+        sels = [probes, probes[::-1], [p - n for p in probes], probes[::2] + probes[1::2]]
+        for v in sels:
+            for as_ in ("np", "list"):
+                i += 1
+                yield {"array": arange_spec([n], ch), "mode": "vindex", "index": [{"k": "pts", "v": list(v), "shape": [len(v)], "as": as_}]}
+                yield {"array": arange_spec([n], ch), "mode": "getitem", "index": [{"k": "ints", "v": list(v), "as": as_}], "bare": bool(i % 2)}
+        yield {"array": arange_spec([n], ch), "mode": "getitem", "index": [{"k": "ints", "v": probes, "as": "da", "chunks": [len(probes)]}], "bare": True}
+        for a, b, st_ in ((250, 262, None), (None, None, -1), (n - 1, 250, -3), (255, None, 2)):
+            yield {"array": arange_spec([n], ch), "mode": "getitem", "index": [{"k": "slice", "v": [a, b, st_]}], "bare": True}
+        # 2-d: points on both axes / points x slice / transposed layout
+        for sh, c2 in (([n, 2], [ch[0], [1, 1]]), ([2, n], [[2], ch[0]])):
+            ax = 0 if sh[0] == n else 1
+            k = len(probes)
+            other = [j % 2 for j in range(k)]
+            pts = [None, None]
+            pts[ax] = {"k": "pts", "v": probes, "shape": [k], "as": "np"}
+            pts[1 - ax] = {"k": "pts", "v": other, "shape": [k], "as": "np"}
+            yield {"array": arange_spec(sh, c2), "mode": "vindex", "index": pts}
+            mixed = [None, None]
+            mixed[ax] = {"k": "pts", "v": probes[::-1], "shape": [k], "as": "list"}
+            mixed[1 - ax] = {"k": "slice", "v": [None, None, None]}
+            yield {"array": arange_spec(sh, c2), "mode": "vindex", "index": mixed}
+            g = [None, None]
+            g[ax] = {"k": "ints", "v": probes, "as": "np"}
+            g[1 - ax] = {"k": "int", "v": 1}
+            yield {"array": arange_spec(sh, c2), "mode": "getitem", "index": g}
+
+
 GRID_AXIS_INDICES = [
     {"k": "int", "v": 0},
     {"k": "int", "v": -1},
@@ -726,6 +768,16 @@ SUBCHECKS = [
         classes=classes,
         exhaustive=True,
         doc="13 representative per-axis indices in all pairs on a 3x3 array under all 16 chunkings",
+    ),
+    Sub(
+        "enum-wide",
+        check,
+        kind="enum",
+        cases=enum_wide,
+        nontrivial=nontrivial,
+        classes=classes,
+        exhaustive=True,
+        doc="axes of length 700 (thorough: also 70000) under irregular chunkings with a short first/last chunk or 300 unit chunks: point selection (vindex, 1-d and 2-d), integer-array getitem and strided slices probing offsets and chunk numbers around 255/256 (65535/65536) and every chunk boundary",
     ),
     Sub(
         "random",
